@@ -121,8 +121,8 @@ package utils
 //@ ensures [P:C15] result1 == nil ==> fresh(result0)
 //@ ensures [P:C15] result1 == nil && reader.spos - old(reader.spos) - len(result0) <= 5 ==> vlqEnds5(reader.sdata, old(reader.spos), reader.spos - old(reader.spos) - len(result0))
 //@ ensures [P:C15] result1 == nil ==> forall i int :: 0 <= i && i < len(result0) ==> result0[i] == reader.sdata[reader.spos - len(result0) + i]
-//@ ensures [P:C15] old(reader.sgreedy) && old(reader.sfault) == nil && old(vldOK(reader, 1)) ==> (uint32(len(result0)) == vlqDec(reader.sdata, old(reader.spos), 1) && forall i int :: 0 <= i && i < len(result0) ==> result0[i] == reader.sdata[old(reader.spos) + 1 + i])
-//@ ensures [P:C15] old(reader.sgreedy) && old(reader.sfault) == nil && old(vldOK(reader, 2)) ==> (uint32(len(result0)) == vlqDec(reader.sdata, old(reader.spos), 2) && forall i int :: 0 <= i && i < len(result0) ==> result0[i] == reader.sdata[old(reader.spos) + 2 + i])
+//@ ensures [P:C15] old(reader.sgreedy) && old(reader.sfault) == nil && old(vldOK(reader, 1)) ==> (len(result0) == int(vlqDec(reader.sdata, old(reader.spos), 1)) && forall i int :: 0 <= i && i < len(result0) ==> result0[i] == reader.sdata[old(reader.spos) + 1 + i])
+//@ ensures [P:C15] old(reader.sgreedy) && old(reader.sfault) == nil && old(vldOK(reader, 2)) ==> (len(result0) == int(vlqDec(reader.sdata, old(reader.spos), 2)) && forall i int :: 0 <= i && i < len(result0) ==> result0[i] == reader.sdata[old(reader.spos) + 2 + i])
 //@ ensures [H] result1 != nil ==> len(result0) == 0
 //@ ensures [H] old(reader.spos) <= reader.spos && reader.spos <= reader.sn
 
@@ -131,6 +131,6 @@ package utils
 //@ modifies rd.spos, rd.sfault
 //@ ensures [P:C15] result1 == nil && rd.spos - old(rd.spos) - len(result0) <= 5 ==> vlqEnds5(rd.sdata, old(rd.spos), rd.spos - old(rd.spos) - len(result0))
 //@ ensures [P:C15] result1 == nil ==> forall i int :: 0 <= i && i < len(result0) ==> result0[i] == rd.sdata[rd.spos - len(result0) + i]
-//@ ensures [P:C15] old(rd.sgreedy) && old(rd.sfault) == nil && old(vldOK(rd, 1)) ==> (uint32(len(result0)) == vlqDec(rd.sdata, old(rd.spos), 1) && forall i int :: 0 <= i && i < len(result0) ==> result0[i] == rd.sdata[old(rd.spos) + 1 + i])
-//@ ensures [P:C15] old(rd.sgreedy) && old(rd.sfault) == nil && old(vldOK(rd, 2)) ==> (uint32(len(result0)) == vlqDec(rd.sdata, old(rd.spos), 2) && forall i int :: 0 <= i && i < len(result0) ==> result0[i] == rd.sdata[old(rd.spos) + 2 + i])
+//@ ensures [P:C15] old(rd.sgreedy) && old(rd.sfault) == nil && old(vldOK(rd, 1)) ==> (len(result0) == int(vlqDec(rd.sdata, old(rd.spos), 1)) && forall i int :: 0 <= i && i < len(result0) ==> result0[i] == rd.sdata[old(rd.spos) + 1 + i])
+//@ ensures [P:C15] old(rd.sgreedy) && old(rd.sfault) == nil && old(vldOK(rd, 2)) ==> (len(result0) == int(vlqDec(rd.sdata, old(rd.spos), 2)) && forall i int :: 0 <= i && i < len(result0) ==> result0[i] == rd.sdata[old(rd.spos) + 2 + i])
 //@ ensures [H] result1 != nil ==> len(result0) == 0
